@@ -161,6 +161,7 @@ type Outcome struct {
 	Yields     int64
 	Scenario   interface{}
 	Trace      []string
+	Goroutines []string // names of the simulated goroutines of the violating execution (replay mode); the shrinker flattens them one by one
 }
 
 func (o *Outcome) Probe(name string) {
@@ -554,6 +555,7 @@ func Shrink(t *testing.T, fn RunFunc, job Job, rf *ReplayFile) {
 	budget := 300
 	reruns := 0
 	leaked0 := atomic.LoadInt64(&LeakedBubbles)
+	var names []string
 	try := func(tape []uint64, sched SchedCfg) bool {
 		// every re-run of a hanging scenario leaves goroutines (and their buffers) behind: cap those
 		if reruns >= budget || time.Now().After(deadline) || atomic.LoadInt64(&LeakedBubbles)-leaked0 >= 10 {
@@ -565,6 +567,7 @@ func Shrink(t *testing.T, fn RunFunc, job Job, rf *ReplayFile) {
 			rf.Detail = v.Detail
 			rf.Scenario = o.Scenario
 			rf.Trace = o.Trace
+			names = o.Goroutines
 			return true
 		}
 		return false
@@ -584,6 +587,16 @@ func Shrink(t *testing.T, fn RunFunc, job Job, rf *ReplayFile) {
 		c.Flat = true
 		if try(tape, c) {
 			sched = c
+		}
+	}
+	// 1b. if the violation needs some non-trivial delays: replace the delay stream of one goroutine at a time by unit delays
+	if !sched.Flat {
+		for _, n := range append([]string(nil), names...) {
+			c := sched
+			c.FlatG = append(append([]string(nil), sched.FlatG...), n)
+			if try(tape, c) {
+				sched = c
+			}
 		}
 	}
 	// 2. tape: truncate, delete chunks, zero, halve
